@@ -82,6 +82,7 @@ type Cfg struct {
 	Exported    bool    `json:"Exported"`   // the pos genesis is an export (carries previous-state powers)
 	PrevPowers  []int64 `json:"PrevPowers"` // per user id: previous-state power in an exported genesis (-1 none)
 	Pruning     string  `json:"Pruning"`    // nothing|everything|syncable|kr,ke
+	SecpLast    bool    `json:"SecpLast"`   // user N holds a secp256k1 key (cannot be a validator on this ed25519-only chain)
 	DBDir       string  `json:"DBDir"`      // "" = MemDB, else goleveldb dir
 	MaxGas      int64   `json:"MaxGas"`     // consensus param Block.MaxGas given to InitChain (0 = no block gas limit)
 	ChainID     string  `json:"ChainID"`
@@ -130,6 +131,7 @@ type App struct {
 	KeyPos  *sdk.KVStoreKey
 	RPC     *FakeRPC
 	Hdr     abci.Header // header of the block being executed / last executed
+	OutSel  int64       // which concrete address stands for the specification's OUT account in the next call
 	Pending [][]byte    // tx hashes delivered in the current block
 	// GenOverride, when set, is the application state given to InitChain instead of the configured
 	// genesis (restart of a chain from the exported state of another instance)
@@ -279,6 +281,22 @@ func GenKeys(n int, seed int64) []Key {
 	return keys
 }
 
+// SecpLast replaces the last (greatest-address) key by a secp256k1 key whose address still sorts
+// last: an account that can sign transactions but whose key type the consensus parameters of the
+// harness chain (ed25519 only) do not admit for validators.
+func SecpLast(keys []Key, seed int64) []Key {
+	n := len(keys)
+	for try := 0; ; try++ {
+		h := sha256.Sum256([]byte(fmt.Sprintf("verif-secp-%d-%d", seed, try)))
+		pk, _ := crypto.Secp256k1PrivateKey{}.PrivateKeyFromBytes(h[:])
+		addr := sdk.Address(pk.PublicKey().Address())
+		if n < 2 || bytes.Compare(addr, keys[n-2].Addr) > 0 {
+			keys[n-1] = Key{Priv: pk, Pub: pk.PublicKey(), Addr: addr}
+			return keys
+		}
+	}
+}
+
 // ---------------------------------------------------------------------------------------------
 // construction
 
@@ -392,6 +410,9 @@ func New(c Cfg, db dbm.DB, rpc *FakeRPC) (*App, error) {
 	a.MM.SetOrderEndBlockers(postypes.ModuleName, govtypes.ModuleName)
 	a.MM.RegisterRoutes(a.B.Router(), a.B.QueryRouter())
 	a.Keys = GenKeys(c.N, c.KeySeed)
+	if c.SecpLast {
+		a.Keys = SecpLast(a.Keys, c.KeySeed)
+	}
 	a.B.SetInitChainer(a.initChainer)
 	a.B.SetBeginBlocker(func(ctx sdk.Ctx, req abci.RequestBeginBlock) abci.ResponseBeginBlock {
 		return a.MM.BeginBlock(ctx, req)
@@ -435,6 +456,14 @@ func (a *App) Addr(id int) sdk.Address {
 		return a.ModAddr[govtypes.DAOAccountName]
 	case id == 0:
 		return sdk.Address{}
+	case id == n+5:
+		// OUT: some address outside the named ones, of the usual length: fresh ones and the same ones again
+		h := sha256.Sum256([]byte(fmt.Sprintf("verif-out-%d", a.OutSel%4)))
+		return sdk.Address(h[:20])
+	case id == n+6:
+		// ODD: an address of a length the usual code never produces (nothing in a message checks it)
+		h := sha256.Sum256([]byte(fmt.Sprintf("verif-odd-%d", a.OutSel%3)))
+		return sdk.Address(h[:[]int{21, 1, 32}[a.OutSel%3]])
 	}
 	// any other id: a deterministic address nobody holds a key for
 	h := sha256.Sum256([]byte(fmt.Sprintf("verif-unknown-%d", id)))
